@@ -1,4 +1,4 @@
-CONSTANTS Alphabet = {"(", ")", "|", ";", " ", "\n", "1", ".", "-", "e", "a"} MaxLen = 4
+CONSTANTS Alphabet <- SmallAlphabet MaxLen = 4
 INIT Init
 NEXT Next
 INVARIANT Emitted
